@@ -3,6 +3,7 @@
 
 use super::decgen::*;
 use super::impls::*;
+use ldpc_toolbox::decoder::arithmetic::*;
 use crate::common::*;
 use crate::engine::*;
 use proptest::prelude::*;
@@ -180,6 +181,68 @@ fn check_wild(case: &Case, p: &mut Probe) -> Check {
     Ok(())
 }
 
+/// a decoder and a clone of it decode at the same time on two threads: each must return what a
+/// fresh decoder returns for its own frames (clones share nothing)
+fn concurrent_pair<D: ldpc_toolbox::decoder::LdpcDecoder + Clone + Send>(name: &str, d: D, frames: &[(Vec<f64>, usize)]) -> Check {
+    // what a fresh object (a clone of the never-used decoder) returns for every frame, sequentially
+    let mut expected = Vec::with_capacity(frames.len());
+    for (llrs, limit) in frames {
+        let mut f = d.clone();
+        expected.push(guarded(|| f.decode(llrs, *limit)).map_err(|e| Fail::new("panic", format!("{name}: a fresh decoder panicked: {e}")))?);
+    }
+    let (mut a, mut b) = (d.clone(), d);
+    let barrier = std::sync::Barrier::new(2);
+    let run = |dec: &mut D, reverse: bool| -> Option<(usize, String)> {
+        barrier.wait();
+        for round in 0..6 {
+            for t in 0..frames.len() {
+                let i = if reverse { frames.len() - 1 - t } else { t };
+                let got = match std::panic::catch_unwind(std::panic::AssertUnwindSafe(|| dec.decode(&frames[i].0, frames[i].1))) {
+                    Ok(g) => g,
+                    Err(_) => return Some((i, format!("panicked in round {round}"))),
+                };
+                if got != expected[i] {
+                    return Some((i, format!("returned {got:?} in round {round}")));
+                }
+            }
+        }
+        None
+    };
+    let (ra, rb) = std::thread::scope(|s| {
+        let ha = s.spawn(|| run(&mut a, false));
+        let hb = s.spawn(|| run(&mut b, true));
+        (ha.join(), hb.join())
+    });
+    for (who, r) in [("the decoder", ra), ("its clone", rb)] {
+        match r {
+            Ok(None) => {}
+            Ok(Some((i, what))) => {
+                return Err(Fail::new("clone-interference", format!("{name}: while a clone of the same decoder was decoding on another thread, {who} {what} for frame {i} (limit {}); a decoder used alone returns {:?}", frames[i].1, expected[i])))
+            }
+            Err(_) => return Err(Fail::new("panic", format!("{name}: a decoding thread panicked"))),
+        }
+    }
+    Ok(())
+}
+
+fn check_concurrent(case: &Case, p: &mut Probe) -> Check {
+    let hs = case.h.to_sparse();
+    let frames: Vec<(Vec<f64>, usize)> = case.calls.iter().map(|c| (fx_vec(&c.llrs), c.limit)).collect();
+    if frames.len() < 2 {
+        return Ok(());
+    }
+    macro_rules! all {
+        ($($t:ident),*) => { $(
+            concurrent_pair(concat!("flooding/", stringify!($t)), ldpc_toolbox::decoder::flooding::Decoder::new(hs.clone(), <$t>::new()), &frames)?;
+            concurrent_pair(concat!("layered/", stringify!($t)), ldpc_toolbox::decoder::horizontal_layered::Decoder::new(hs.clone(), <$t>::new()), &frames)?;
+            p.inner += 2;
+        )* };
+    }
+    crate::with_arith_types!(all);
+    p.nontrivial();
+    Ok(())
+}
+
 pub fn property() -> Property {
     Property {
         id: "C10",
@@ -207,6 +270,14 @@ pub fn property() -> Property {
                 strategy: wild_strategy,
                 check: check_wild,
                 health: &[("check-of-degree<=1", 0.30)],
+            }),
+            Box::new(Sub {
+                name: "concurrent-clones",
+                rule: "one generated H and 2..=8 frames (same generators): for each of the 24 arithmetics and both schedules a generic decoder and a clone of it decode the frames six times over at the same time on two threads (started together, opposite orders); every result must be what a decoder used alone returns for that frame (clones share nothing); inner = decoder pairs",
+                cases: |t| t.pick(400, 12_000),
+                strategy: |_| strategy(8, 14, 8),
+                check: check_concurrent,
+                health: &[],
             }),
             Box::new(Sub {
                 name: "real-codes",
